@@ -8,6 +8,7 @@ import (
 	"context"
 	"errors"
 	"fmt"
+	"os"
 	"reflect"
 	"runtime"
 	"strings"
@@ -79,7 +80,9 @@ type panicStruct struct {
 }
 
 // PanicValues have different dynamic types (one of them not comparable).
-var PanicValues = []any{"boom", errors.New("an error"), 42, panicStruct{7, "x"}, &customErr{3}, []int{1, 2, 3}, 3.5}
+// nil stands for panic(nil): recover() gives a *runtime.PanicNilError, or nil when the program runs with GODEBUG=panicnil=1.
+// The context errors are what a task panics with when a sub-context of its own ran out (nothing to do with the lane's).
+var PanicValues = []any{"boom", errors.New("an error"), 42, panicStruct{7, "x"}, &customErr{3}, []int{1, 2, 3}, 3.5, nil, context.DeadlineExceeded, fmt.Errorf("step 3: %w", context.Canceled)}
 
 type OpKind int
 
@@ -141,6 +144,7 @@ type Program struct {
 	EarlyWaiter         bool          // a goroutine calls Wait() straight after New(): it must not return while the context is live
 	Abrupt              bool          // New, a few pushes, cancel, Wait - back to back on one goroutine, without letting the lane settle; Ops are ignored
 	BornDone            bool          // the lane is created on a context that is already done
+	Sibling             bool          // a second TaskLane lives on the same context, with idle workers and a little work of its own
 	Ops                 []Op
 }
 
@@ -308,6 +312,9 @@ type sim struct {
 	byTask          atomic.Bool
 	goexits         atomic.Int32 // tasks that ended their goroutine with runtime.Goexit()
 	nilTaken        atomic.Int32 // nil tasks a worker was about to start (hook point W1)
+	sib             *tasklane.TaskLane
+	sibTasks        []*siblingTask
+	sibRunning      atomic.Int32
 	directorPushing atomic.Bool
 	producers       sync.WaitGroup
 	pollers         sync.WaitGroup
@@ -414,7 +421,24 @@ func (s *sim) openAll() {
 	}
 }
 
+// siblingTask is a task of the second TaskLane on the same context (see Program.Sibling).
+type siblingTask struct {
+	s     *sim
+	count atomic.Int32
+}
+
+func (d *siblingTask) Start() {
+	d.count.Add(1)
+	if r := d.s.sibRunning.Add(1); r > 2 {
+		d.s.violate("C08", "%d tasks of the second lane (laneSize 2) executing at once", r)
+	}
+	d.s.sibRunning.Add(-1)
+}
+
 func (s *sim) hook(point string, lane int, tk tasklane.Task) {
+	if _, other := tk.(*siblingTask); other {
+		return // the second lane's own traffic is not part of the protocol under observation
+	}
 	s.mu.Lock()
 	s.res.HookHits[point]++
 	s.mu.Unlock()
@@ -535,6 +559,13 @@ func (s *sim) quiescent(where string) {
 		for _, v := range raised {
 			if reflect.DeepEqual(st.LastPanic, v) {
 				ok = true
+			}
+			if v == nil {
+				// panic(nil): the recovered value is a *runtime.PanicNilError; with GODEBUG=panicnil=1 recover() yields
+				// nil and the panic cannot be told from a normal return, so LastPanic keeps whatever it was
+				if _, isNilErr := st.LastPanic.(*runtime.PanicNilError); isNilErr || strings.Contains(os.Getenv("GODEBUG"), "panicnil=1") {
+					ok = true
+				}
 			}
 			if _, isNil := v.(nilTaskPanic); isNil {
 				if _, rte := st.LastPanic.(runtime.Error); rte {
@@ -720,6 +751,18 @@ func Run(p Program) (res Result) {
 		s.res.CancelPoint = "before New"
 	}
 	s.tl = tasklane.New(s.ctx, p.LaneSize, p.QueueSize)
+	if p.Sibling {
+		// two lanes of one program on one context (one per kind of work): they share nothing but the context. The
+		// second one has two workers that are idle most of the time - and must stay idle whatever the first one queues
+		s.sib = tasklane.New(s.ctx, 2, 1)
+		for i := 0; i < 2; i++ {
+			d := &siblingTask{s: s}
+			s.sibTasks = append(s.sibTasks, d)
+			if err := s.sib.PushTask(d, i); err != nil && s.ctx.Err() == nil {
+				s.violate("C06", "second lane: PushTask returned %v on a live context with room", err)
+			}
+		}
+	}
 	if p.EarlyWaiter {
 		// Wait() may be called at any time, also before the lane's goroutines have been scheduled for the first time
 		s.pollers.Add(1)
@@ -974,4 +1017,12 @@ func (s *sim) shutdown(maxSleep time.Duration) {
 	s.producers.Wait() // producers blocked at the time of the cancel must have been released
 	s.pollers.Wait()
 	s.checkStatus("after Wait")
+	if s.sib != nil {
+		s.sib.Wait()
+		for i, d := range s.sibTasks {
+			if c := d.count.Load(); c > 1 {
+				s.violate("C06", "second lane: its task #%d was started %d times", i, c)
+			}
+		}
+	}
 }
